@@ -49,19 +49,48 @@ Theorem C08_lookup_origin : forall gs st q wo,
 Proof. exact lookup_built. Qed.
 Print Assumptions C08_lookup_origin.
 
-(* gene added after the areas: the slice of the (disjoint, ascending) region list that _link_cds_to_parent
-   inspects contains every region that contains the gene - so for regions the bisected window finds what an
-   exhaustive scan would find (the other collections ARE scanned exhaustively).  After repair 17153368
-   (max(0, left - 1)); before it the statement failed for a gene equal to the first region *)
+(* gene added after the areas: the candidates that _link_cds_to_parent inspects - the slice of the (disjoint,
+   ascending) region list around the bisection point, preceded by region 0 when that region crosses the origin and the
+   slice does not start there (repair of C06-K4 late_gene_origin_region_unlinked) - contain every region that contains
+   the gene, so for regions the bisection finds what an exhaustive scan would find (the other collections ARE scanned
+   exhaustively).  After repair 17153368 (max(0, left - 1)); before it the statement failed for a gene equal to the
+   first region.  Guard: one-part regions, one-part gene; the region that crosses the origin is C08_link_first, and
+   one-part regions NEXT TO such a region are proved on the same code in C06 (C06_late_gene_link_layout,
+   C06_late_gene_link_complete). *)
 Theorem C08_link_window : forall regs g,
   RS regs -> (forall r, In r regs -> simple_area r) -> simple_gene g = true ->
   (forall r, In r regs -> zmem (gid g) (amem r) = false) ->
   let left := bisect (fun r => region_lt_cds r g) regs 0 in
   let right := bisect (fun r => negb (cds_lt_region g r)) regs left in
-  let window := firstn (S right - (left - 1)) (skipn (left - 1) regs) in
-  forall r, In r regs -> contains (aloc r) (gloc g) = true -> In r window.
-Proof. exact link_window_complete. Qed.
+  let candidates := link_first regs (left - 1) ++ firstn (S right - (left - 1)) (skipn (left - 1) regs) in
+  forall r, In r regs -> contains (aloc r) (gloc g) = true -> In r candidates.
+Proof.
+  intros regs g Hrs Hsim Hg Hmem left right candidates r Hr Hc. apply in_or_app. right.
+  exact (link_window_complete regs g Hrs Hsim Hg Hmem r Hr Hc).
+Qed.
 Print Assumptions C08_link_window.
+
+(* no guard at all: whatever the region list and whatever the gene (multi-exon, origin-crossing), region 0 is among the
+   candidates whenever it crosses the origin - the case the unrepaired code missed (a region crossing the origin sorts
+   first, the bisection for a gene in its part before the origin ends at the other end of the list) *)
+Theorem C08_link_first : forall regs g r0, nth_error regs 0 = Some r0 -> bridges (aloc r0) = true ->
+  let left := bisect (fun r => region_lt_cds r g) regs 0 in
+  let right := bisect (fun r => negb (cds_lt_region g r)) regs left in
+  In r0 (link_first regs (left - 1) ++ firstn (S right - (left - 1)) (skipn (left - 1) regs)).
+Proof. exact link_first_complete. Qed.
+Print Assumptions C08_link_first.
+
+(* the witness of C06-K4 on this model: regions 900..50, 100..200, 400..500, 600..700 on a ring of 1000 and the gene
+   950..980 added afterwards: the gene is linked to the first region (before the repair: to none) *)
+Example C08_ex_link_first :
+  let mk := fun i l => mkArea i K_REGION l [] [] [] [] [] in
+  let regs := [mk 1 [mkPart 900 1000 1; mkPart 0 50 1]; mk 2 [mkPart 100 200 1]; mk 3 [mkPart 400 500 1];
+               mk 4 [mkPart 600 700 1]] in
+  let st := mkState [] regs [1; 2; 3; 4] [] in
+  exists st', add_gene st (mkGene 0 [mkPart 950 980 1] []) = Ok st' /\ slink st' = [(0, 1)] /\
+              map amem (sareas st') = [[0]; []; []; []].
+Proof. cbv zeta. eexists. split; [vm_compute; reflexivity|]. split; reflexivity. Qed.
+
 
 (* add_cds never stores a gene that the collection's location does not contain (it raises instead) *)
 Theorem C08_add_cds_contained : forall depth tbl i g tbl', add_cds depth tbl i g = Ok tbl' ->
